@@ -73,3 +73,13 @@ def register(claim):
           "How directive lines are found inside skipped text (comments, strings) is outside the model and covered by the gcc comparison only. "
           "Conditions are the C07 expressions; macro bodies are integer literals or single identifiers.",
           "Lean 4 proof (refinement of tree semantics by the stack-free machine) + extracted dispatch tables + differential correspondence with gcc oracle", "DESIGN.md §5 C09")
+    claim("C17",
+          "Lean 4 theorems over a verbatim model of the component loop of Filename::standardize: idempotent on EVERY path, and in any directory "
+          "tree without symbolic links a path that denotes an entry keeps denoting the same entry after normalisation (c17_std_idempotent, "
+          "c17_std_denotes; loop invariant + normal-form replay), never the empty path; the include search (working directory, includer's "
+          "directory, -I/-S in order; <x> only through -S; -noangles) is modelled as a candidate list with the corresponding lemmas. The real "
+          "Filename class is compared with the model on every path over {a,b,.,..,empty} up to 5 (6) components; include layouts, ownership of "
+          "command-line files under odd spellings and once-only inclusion across spellings/symlinks are run against parse_file/interrogate.",
+          "Splitting a string at '/' is done by the driver, not proved. Once-only inclusion depends on realpath()/chdir and is checked on layouts only. "
+          "c17_std_denotes assumes no symbolic links (textual '..' removal).",
+          "Lean 4 proof (standardize idempotent and denotation-preserving) + differential correspondence on exhaustive small paths and generated layouts", "DESIGN.md §5 C17")
